@@ -2,9 +2,9 @@ CONSTANTS
   Sessions = {"s1", "s2"}
   Mailboxes = {"A", "B"}
   Flags <- OnlyDeleted
-  MaxMsgs = 1
+  MaxMsgs = 2
   MaxUid = 2
-  MaxQueue = 2
+  MaxQueue = 3
   Kinds <- AllKinds
   SeqSets <- Sets2
   UidSets <- Sets2
